@@ -541,6 +541,7 @@ func c11TCP(c *h.Ctx) error {
 		return err
 	}
 	c11ReconnectAfterCut(c)
+	c11ConcurrentSenders(c)
 	for s := 0; s < sessions; s++ {
 		ln, err := net.Listen("tcp", "127.0.0.1:0")
 		if err != nil {
@@ -713,5 +714,90 @@ func c11ReconnectAfterCut(c *h.Ctx) {
 				break
 			}
 		}
+	}
+}
+
+// yieldConn records what is written, one Write call at a time (as a TCP connection delivers it: the bytes of one Write are
+// contiguous on the wire), and gives other goroutines a chance to run after every call.
+type yieldConn struct {
+	captureConn
+	mu sync.Mutex
+}
+
+func (y *yieldConn) Write(p []byte) (int, error) {
+	y.mu.Lock()
+	n, err := y.buf.Write(p)
+	y.mu.Unlock()
+	time.Sleep(200 * time.Microsecond)
+	return n, err
+}
+
+// c11ConcurrentSenders: several goroutines send on ONE transport (a client with more than one request in flight). Whatever the
+// schedule, the peer receives exactly the payloads that were sent, each once and each whole: a frame is one unit on the wire.
+func c11ConcurrentSenders(c *h.Ctx) {
+	sizes := []int{100, 20000, 5, 70000, 16385, 131071, 0, 16384}
+	const senders = 4
+	c.Case("concurrent-senders")
+	conn := &yieldConn{}
+	t := nbt.NewNBTTransport()
+	t.VerifSetConn(conn)
+	want := map[string]int{}
+	var wmu sync.Mutex
+	var wg sync.WaitGroup
+	for g := 0; g < senders; g++ {
+		wg.Add(1)
+		go func(g int) {
+			defer wg.Done()
+			for i, n := range sizes {
+				p := make([]byte, n)
+				for j := range p {
+					p[j] = byte(0x40 + g*16 + i)
+				}
+				if _, err := t.Send(p); err != nil {
+					continue
+				}
+				wmu.Lock()
+				want[fmt.Sprintf("%d:%d:%d", g, i, n)]++
+				wmu.Unlock()
+			}
+		}(g)
+	}
+	wg.Wait()
+	c.Exec(senders * len(sizes))
+	// the peer: a fresh transport reading the recorded stream
+	rx := nbt.NewNBTTransport()
+	rx.VerifSetConn(&streamConn{r: bytes.NewReader(conn.buf.Bytes())})
+	smp := map[string]interface{}{"senders": senders, "payload_sizes": sizes, "stream_bytes": conn.buf.Len()}
+	for k := 0; k < senders*len(sizes); k++ {
+		var got []byte
+		var err error
+		if p := h.Guard(func() { got, err = rx.Receive() }); p != "" || err != nil {
+			c.Fail("nbt.NBTTransport.Send", "concurrent-senders:stream-not-framed", fmt.Sprintf("after %d messages the peer cannot read the next frame from what %d concurrent senders wrote: %v %s", k, senders, err, p), smp)
+			return
+		}
+		key := "?"
+		if len(got) == 0 {
+			// two senders have an empty payload each; any of them
+			for g := 0; g < senders; g++ {
+				if want[fmt.Sprintf("%d:6:0", g)] > 0 {
+					key = fmt.Sprintf("%d:6:0", g)
+					break
+				}
+			}
+		} else {
+			g, i := int(got[0]-0x40)/16, int(got[0]-0x40)%16
+			key = fmt.Sprintf("%d:%d:%d", g, i, len(got))
+			for _, b := range got {
+				if b != got[0] {
+					key = "mixed"
+					break
+				}
+			}
+		}
+		if want[key] == 0 {
+			c.Fail("nbt.NBTTransport.Send", "concurrent-senders:fabricated-frame", fmt.Sprintf("message #%d received by the peer (%d bytes, first bytes %x) is not a payload one of the %d concurrent senders sent", k+1, len(got), got[:min(len(got), 8)], senders), smp)
+			return
+		}
+		want[key]--
 	}
 }
